@@ -815,3 +815,50 @@ Proof.
   eapply Forall_impl; [|apply IH]. intros s' [H1 H2]. cbn beta. split; [lia|].
   eapply extends_trans; [|exact C|exact H2]. lia.
 Qed.
+
+(* ------------------------------------------------------------------------------------------------ handles *)
+
+(* whatever handles the operations of a history are called through: every handle points at the view it pointed at *)
+Theorem hrun_handles ta tx tj hops : forall hs,
+  Forall (fun x => hs_cur (fst x) = hs_cur hs) (hrun ta tx tj hops hs).
+Proof.
+  induction hops as [|ho r IH]; intros hs; [constructor|]. cbn [hrun]. unfold hstep.
+  destruct (step ta tx tj (snd ho) (hs_store hs)) as [s' d].
+  constructor; [reflexivity|]. exact (IH (mkHs (hs_cur hs) s')).
+Qed.
+
+(* ... and stores and documents are those of the history without handles *)
+Theorem hrun_store ta tx tj hops : forall hs,
+  map (fun x => (hs_store (fst x), snd x)) (hrun ta tx tj hops hs) = run ta tx tj (map snd hops) (hs_store hs).
+Proof.
+  induction hops as [|ho r IH]; intros hs; [reflexivity|]. cbn [hrun map run]. unfold hstep.
+  destruct (step ta tx tj (snd ho) (hs_store hs)) as [s' d]. cbn [map fst snd hs_store]. f_equal.
+  exact (IH (mkHs (hs_cur hs) s')).
+Qed.
+
+Corollary hrun_handle_irrelevant ta tx tj hops hops' hs hs' :
+  map snd hops = map snd hops' -> hs_store hs = hs_store hs' ->
+  map (fun x => (hs_store (fst x), snd x)) (hrun ta tx tj hops hs) =
+  map (fun x => (hs_store (fst x), snd x)) (hrun ta tx tj hops' hs').
+Proof. intros E1 E2. rewrite !hrun_store, E1, E2. reflexivity. Qed.
+
+Lemma hrun_states ta tx tj hops : forall hs,
+  map (fun x => hs_store (fst x)) (hrun ta tx tj hops hs) = states_of ta tx tj (map snd hops) (hs_store hs).
+Proof.
+  induction hops as [|ho r IH]; intros hs; [reflexivity|]. cbn [hrun map states_of]. unfold hstep.
+  destruct (step ta tx tj (snd ho) (hs_store hs)) as [s' d]. cbn [map fst snd hs_store]. f_equal.
+  exact (IH (mkHs (hs_cur hs) s')).
+Qed.
+
+(* what a query through handle h returns is, in every state of the history, what it returned before the history *)
+Theorem history_handle_queries_unchanged ta tx tj per_view h hops : forall hs,
+  (forall l, In l (nth (N.to_nat (view_of hs h)) per_view []) -> exists i, id_of l (st_entries (hs_store hs)) = Some (Some i)) ->
+  Forall (fun x => hquery per_view (fst x) h = hquery per_view hs h) (hrun ta tx tj hops hs).
+Proof.
+  intros hs H.
+  assert (Q := history_queries_unchanged ta tx tj _ (map snd hops) _ H).
+  rewrite <- hrun_states in Q. rewrite Forall_map in Q.
+  assert (C := hrun_handles ta tx tj hops hs).
+  rewrite Forall_forall in *. intros x Hx. specialize (Q x Hx). specialize (C x Hx).
+  unfold hquery, view_of in *. rewrite C. exact Q.
+Qed.
